@@ -158,9 +158,16 @@ impl<B: Body> PreparedRequest<B> {
         let version = Version::HTTP_11;
 
         if proxy.is_some() && url.scheme() == "http" {
-            debug!("{} {} {:?}", self.method.as_str(), url, version);
+            // absolute-form: the URL without its fragment and without credentials, neither of
+            // which is part of the request target (RFC 9112 section 3.2.2, RFC 9110 section 4.2.4)
+            let mut target = url.clone();
+            target.set_fragment(None);
+            let _ = target.set_username("");
+            let _ = target.set_password(None);
 
-            write!(writer, "{} {} {:?}\r\n", self.method.as_str(), url, version)?;
+            debug!("{} {} {:?}", self.method.as_str(), target, version);
+
+            write!(writer, "{} {} {:?}\r\n", self.method.as_str(), target, version)?;
         } else if let Some(query) = url.query() {
             debug!("{} {}?{} {:?}", self.method.as_str(), url.path(), query, version);
 
